@@ -132,8 +132,22 @@ def resolve_table(case):
                 break
         if t is None:
             return None
+        pre_prog = []
+        if t.get('pre') is not None:
+            # a prepare / conditions / before callback of this transition triggers an event re-entrantly (flat,
+            # unqueued): that event is processed completely first; the transition then leaves the state the
+            # model is in NOW (not its declared source), or is given up if the exception gets through
+            if depth >= MAX_CHAIN:
+                raise Cycle()
+            sub = expand(sid, t['pre'][1], depth + 1)
+            if sub is not None and sub[0] == 'move':
+                if sub[3] and not case['on_exc']:
+                    return sub
+                pre_prog = sub[1]
+                sid = sub[2]
+                p = pt[sid]
         if t['dst'] is None:
-            return ('stay',)
+            return ('move', pre_prog, sid, False) if pre_prog else ('stay',)
         d = pt[t['dst']]
         r = 0
         while r < len(d) and r < len(p) and d[r] == p[r]:
@@ -143,7 +157,7 @@ def resolve_table(case):
         exits = [p[k - 1] for k in range(len(p), r, -1)]
         enters = [d[k - 1] for k in range(r + 1, len(d) + 1)]
         enters += leaf_closure(nd, d[-1])
-        prog = []
+        prog = list(pre_prog)
         for x in exits:
             prog.append((0, x))
             if nd[x].get('cb_exit') == 'raise':
@@ -200,8 +214,9 @@ def enc_run(case):
         cl = leaf_closure(nd_, init)
         out += [m, cl[-1] if cl else init]
     out.append(0)          # runner keys: the code files timers under id(model) - the identity, whatever __eq__ says
-    out.append(len(case['history']))
-    for op in case['history']:
+    hist = [op for op in case['history'] if op[0] != 'readd']     # membership cycles do not concern the timers
+    out.append(len(hist))
+    for op in hist:
         if op[0] == 'tick':
             out += [0, len(op[1])]
             for m, e in op[1]:
@@ -352,10 +367,14 @@ def _model_class(case, run, is_async):
     pks = case.get('pks') or [m for m, _i in case['models']]
 
     class Model(object):
-        def __init__(self, idx):
-            self.idx = idx
-            self.pk = pks[idx]
-            self.raised = None
+        raised = None
+
+        @classmethod
+        def make(cls, idx):
+            obj = cls()
+            obj.idx = idx
+            obj.pk = pks[idx]
+            return obj
 
     if model_eq != 'identity':
         # value objects: two handles on the same record compare equal - but they are two models
@@ -462,6 +481,22 @@ def _model_class(case, run, is_async):
         if n.get('reg') == 'model' and n['timeout'] > 0:
             # the model's convenience method: add_model registers it as an on_timeout callback of the state
             setattr(Model, 'on_timeout_' + name_of(paths(case)[sid]), mk_timeout(sid))
+    def mk_pre_trigger(ev):
+        if is_async:
+            async def f(self, *a, **k):
+                res = self.trigger('e%d' % ev)
+                if inspect.isawaitable(res):
+                    await res
+                return True
+        else:
+            def f(self, *a, **k):
+                self.trigger('e%d' % ev)
+                return True
+        return f
+
+    for k, t in enumerate(case['transitions']):
+        if t.get('pre') is not None:
+            setattr(Model, 'cb_pre_%d' % k, mk_pre_trigger(t['pre'][1]))
     Model.rec_exception = rec_exception
     return Model
 
@@ -476,19 +511,37 @@ def _machine(case, run):
     is_async = case['cls'] in ASYNC_CLASSES
     feature = AsyncTimeout if is_async else Timeout
 
-    @add_state_features(_probe_class(run, is_async), feature)
-    class TimeoutMachine(base):
-        pass
-
     Model = _model_class(case, run, is_async)
-    models = [Model(m) for m, _i in case['models']]
+    if case.get('self_model'):
+        # the machine is its own model: recorders and convention-named on_timeout_<state> methods live on it
+        @add_state_features(_probe_class(run, is_async), feature)
+        class TimeoutMachine(Model, base):
+            idx = 0
+            pk = 0
+    else:
+        @add_state_features(_probe_class(run, is_async), feature)
+        class TimeoutMachine(base):
+            pass
+    models = [] if case.get('self_model') else [Model.make(m) for m, _i in case['models']]
     pt = paths(case)
-    transitions = [{'trigger': 'e%d' % t['ev'], 'source': name_of(pt[t['src']]),
-                    'dest': None if t['dst'] is None else name_of(pt[t['dst']])} for t in case['transitions']]
+    transitions = []
+    for k, t in enumerate(case['transitions']):
+        d = {'trigger': 'e%d' % t['ev'], 'source': name_of(pt[t['src']]),
+             'dest': None if t['dst'] is None else name_of(pt[t['dst']])}
+        if t.get('pre') is not None:
+            d[t['pre'][0]] = ['cb_pre_%d' % k]        # 'prepare' | 'conditions' | 'before'
+        transitions.append(d)
     kw = {}
     if case['on_exc']:
         kw['on_exception'] = ['rec_exception']
     first = case['models'][0][1]
+    if case.get('self_model'):
+        machine = TimeoutMachine(states=_state_defs(case, case['states'], is_async), transitions=transitions,
+                                 initial=name_of(pt[first]), auto_transitions=False, ignore_invalid_triggers=True,
+                                 queued=case['queued'], send_event=case['send_event'], **kw)
+        run.machines = [machine]
+        _register_handlers(case, machine)
+        return machine, [machine]
     if case.get('layout', 'shared') == 'per_model':
         # one machine per model; the State objects are created once and handed to every machine
         # (the "state definitions on the class, one machine per instance" layout): they share `runner`
@@ -552,6 +605,13 @@ def run_threads(case):
             if op[0] == 'setT':
                 machine.get_state(name_of(paths(case)[op[1]])).timeout = op[2]
                 run.recs.append(('setT', op[1], op[2]))
+                continue
+            if op[0] == 'readd':
+                # the model is taken off the machine and registered again, in the state it is in
+                mo = models[op[1]]
+                state = mo.state
+                machine.remove_model(mo)
+                machine.add_model(mo, initial=state)
                 continue
             if op[0] == 'tick':
                 clock.tick()
@@ -875,6 +935,9 @@ def gen_case(rng, cls):
     if not transitions:
         transitions.append({'ev': 0, 'src': all_ids[0], 'dst': all_ids[-1]})
     n_models = rng.choice([1, 1, 2, 2, 3])
+    self_model = cls in ('Machine', 'LockedMachine') and rng.random() < 0.3
+    if self_model:
+        n_models = 1
     models = [[m, rng.choice(all_ids)] for m in range(n_models)]
     case.update({
         'queued': rng.choice([False, False, True] + (['model'] if is_async else [])),
@@ -888,6 +951,20 @@ def gen_case(rng, cls):
         'model_eq': rng.choice(['identity', 'identity', 'value', 'value', 'unhashable']),
         'pks': [rng.randrange(2) for _ in range(n_models)],
         'transitions': transitions, 'models': models, 'history': []})
+    if not nested and case['queued'] is False:
+        # flat, unqueued: a prepare / conditions / before callback of a transition may trigger another event first,
+        # so that the state actually left differs from the transition's declared source
+        for t in transitions:
+            if rng.random() < 0.15:
+                t['pre'] = [rng.choice(['prepare', 'conditions', 'before']), rng.randrange(n_events)]
+    if self_model:
+        # machine as its own model, handlers by convention as methods on_timeout_<state>
+        case['self_model'] = True
+        case['model_eq'] = 'identity'
+        for n in nd.values():
+            if n['timeout'] > 0 and rng.random() < 0.7:
+                n['reg'] = 'model'
+                n['ncb'] = 1
     if n_models > 1 and rng.random() < (0.3 if case['model_eq'] == 'identity' else 0.7):
         case['layout'] = 'per_model'
     if case['layout'] == 'shared' or case['model_eq'] == 'identity':
@@ -898,6 +975,8 @@ def gen_case(rng, cls):
         for n in nd.values():
             if n['cb_enter'] and n['cb_enter'][0] == 'trigger':
                 n['cb_enter'] = ['plain']
+        for t in transitions:
+            t.pop('pre', None)
     # history: (delay, event) pairs — delays below / equal to / above the timeouts in play
     touts = sorted(set(n['timeout'] for n in nd.values() if n['timeout'])) or [2]
     hist = []
@@ -918,6 +997,10 @@ def gen_case(rng, cls):
         for _ in range(rng.randint(1, 3)):
             pos = rng.randrange(len(hist) + 1)
             hist.insert(pos, ['setT', rng.choice(handlers), rng.choice([0, 0, 1, 2, 3, 5])])
+    if not is_async and case['layout'] == 'shared' and rng.random() < 0.4:
+        # membership cycles: remove_model(m); add_model(m) somewhere in the history
+        for _ in range(rng.randint(1, 2)):
+            hist.insert(rng.randrange(len(hist) + 1), ['readd', rng.randrange(n_models)])
     if rng.random() < 0.5:
         # enter, wait a little, leave and come back within one instant, wait less than the timeout, leave, wait
         m = rng.randrange(n_models)
@@ -1018,6 +1101,10 @@ def shrink_steps(case):
             c = copy.deepcopy(case)
             del c['transitions'][i]
             yield c
+        if case['transitions'][i].get('pre') is not None:
+            c = copy.deepcopy(case)
+            c['transitions'][i].pop('pre')
+            yield c
     for k, top in enumerate(case['states']):
         if len(case['states']) > 1:
             gone = set(n['id'] for n, _p in walk([top]))
@@ -1036,7 +1123,8 @@ def shrink_steps(case):
         c = copy.deepcopy(case)
         c['layout'] = 'shared'
         yield c
-    for key, val in (('queued', False), ('send_event', False), ('on_exc', False), ('async_cbs', False), ('batch', False)):
+    for key, val in (('queued', False), ('send_event', False), ('on_exc', False), ('async_cbs', False), ('batch', False),
+                     ('self_model', False)):
         if case.get(key, val) != val:
             c = copy.deepcopy(case)
             c[key] = val
@@ -1118,7 +1206,9 @@ class C17(runner.Check):
             'unequal pairs) or unhashable ones, on one machine or one machine per model sharing the State objects - '
             'queued or not, send_event on/off; timeout states whose handlers are given at construction or - created with an '
             'empty list - registered afterwards (model method on_timeout_<state>, machine.on_timeout_<state>(cb), '
-            'state.add_callback); history ops that assign state.timeout (0 or another value) between entries and exits; under asyncio the events of one '
+            'state.add_callback); machines acting as their own model (Machine, LockedMachine) with convention-named '
+            'on_timeout_<state> methods; remove_model/add_model cycles in the history; on flat unqueued machines '
+            'transitions whose prepare / conditions / before callback triggers another event first; history ops that assign state.timeout (0 or another value) between entries and exits; under asyncio the events of one '
             'instant are awaited back to back in one task (no idle loop in between) or one by one; histories of 3-9 (delay, event) '
             'pairs with delays below / equal to / above the timeouts, for the threaded classes also events that win '
             'the tie against a timer due at the same instant; a case is non-trivial when at least one timeout fired '
